@@ -45,6 +45,9 @@ type Plan struct {
 	TracePath  string    `json:"trace"`
 	ResultPath string    `json:"result"`
 	MaxOps     int       `json:"max_ops"`
+	// Chunks: buffer sizes handed out (cyclically) to io.ReadAll / io.Copy of the command
+	// through the verifio facade; empty = the standard library's own behaviour.
+	Chunks []int `json:"chunks"`
 }
 
 // OpRec is one intercepted operation.
@@ -330,4 +333,23 @@ func Finish(done *bool) {
 	*done = true
 	simOn = false
 	mu.Unlock()
+}
+
+var chunkPos int
+
+// ChunkKnob reports whether the plan chooses the buffer sizes of io.ReadAll / io.Copy.
+func ChunkKnob() bool { return plan != nil && len(plan.Chunks) > 0 }
+
+// NextChunk returns the next buffer size of the plan. Each goroutine of the command walks
+// the same cyclic list from a position that depends only on how many buffers the whole run
+// has asked for so far, which the seeded schedule makes deterministic.
+func NextChunk() int {
+	mu.Lock()
+	defer mu.Unlock()
+	n := plan.Chunks[chunkPos%len(plan.Chunks)]
+	chunkPos++
+	if n < 1 {
+		n = 1
+	}
+	return n
 }
